@@ -102,6 +102,46 @@ def run_unprivileged_twice(run, binary, base, rng, n):
             shutil.rmtree(root, ignore_errors=True)
 
 
+def run_table_twice(run, binary, base):
+    """Every accepted cell of the trailing-slash table (file / link / folder source, with and without trailing slashes,
+    destination missing, file, link or folder), run twice with the very same command line: the second run does nothing."""
+    from props.c01 import table_cases, table_expect
+    T0 = sync_e2e.T0
+    fdata = lambda s_, dt: {'k': 'file', 'data': s_, 'mtime_ns': T0 + dt}
+    for (sk, ss, dk, ds) in table_cases():
+        if table_expect(sk, ss, dk, ds, False) == 'X':
+            continue
+        root = tempfile.mkdtemp(prefix='tb2_', dir=base)
+        try:
+            open(os.path.join(root, 'tfile'), 'w').write('tf')
+            os.mkdir(os.path.join(root, 's'))
+            os.mkdir(os.path.join(root, 'd'))
+            stree = {'file': {'': fdata(b'SRC', 1)}, 'link': {'': {'k': 'link', 'text': b'../tfile'}},
+                     'dir': {'': {'k': 'dir'}, 'x': fdata(b'x', 2), 'sub': {'k': 'dir'}, 'sub/y': fdata(b'yy', 3)}}[sk]
+            e2e.build_tree(os.path.join(root, 's', 'a'), stree)
+            if dk is not None:
+                dtree = {'file': {'': fdata(b'OLD', -9)}, 'link': {'': {'k': 'link', 'text': b'../tfile'}},
+                         'dir': {'': {'k': 'dir'}, 'old': fdata(b'old', -4)}}[dk]
+                e2e.build_tree(os.path.join(root, 'd', 'b'), dtree)
+            sp = os.path.join(root, 's', 'a') + ('/' if ss else '')
+            dp = os.path.join(root, 'd', 'b') + ('/' if ds else '')
+            args = [sp, dp, '--dest-root-needs-deleting', 'delete', '--dest-file-newer', 'overwrite']
+            r1 = e2e.run_cli(binary, args, timeout=60)
+            run.count('table-twice:first-exit:%s' % r1['exit'])
+            run.case(('table-twice', sk, ss, dk, ds), True, sample={'cell': [sk, ss, dk, ds], 'first_exit': r1['exit']} if (sk, dk) == ('file', None) else None)
+            if r1['exit'] != 0:
+                continue
+            mid = e2e.snapshot(root)
+            r2 = e2e.run_cli(binary, args, timeout=60)
+            text2 = r2['stdout'] + r2['stderr']
+            if r2['exit'] != 0 or e2e.snapshot(root) != mid or 'Nothing to do' not in text2:
+                run.fail('C04 (table cell src=%s%s dest=%s%s): the first run exited 0, the same command again %s' %
+                         (sk, '/' if ss else '', dk, '/' if ds else '', 'exits %s' % r2['exit'] if r2['exit'] != 0 else 'did something'),
+                         {'family': 'table-twice', 'cell': [sk, ss, dk, ds], 'second_text': text2[-500:]})
+        finally:
+            shutil.rmtree(root, ignore_errors=True)
+
+
 def check(run):
     run.trusted = list(vlib.COMMON_TRUSTED)
     run.assumptions = ['the destination file system stores nanosecond timestamps', 'source static between the two runs']
@@ -174,6 +214,7 @@ def check(run):
         import spec_e2e
         spec_e2e.twice_family(run, binary, base, 40 if run.tier == 'quick' else 2500, rng)
         run_unprivileged_twice(run, binary, base, rng, 20 if run.tier == 'quick' else 600)
+        run_table_twice(run, binary, base)
     finally:
         shutil.rmtree(base, ignore_errors=True)
     return run.finish(search=None)
